@@ -1135,6 +1135,17 @@ class C11Executor(_verify.Executor):
             return r
         return super().e_Call(n, st)
 
+    # -- round 7: vacuity guard.  A contract of the consumer modules (C11_ctx) applied at a call site that leaves NO normal outcome
+    #    (its assumed postcondition is infeasible there: e.g. a helper called before the class invariant holds) would make
+    #    everything after the call vacuously true: the caller is OUT-OF-SUBSET instead (native replay decides).
+    def apply_contract(self, st, c, args, kwargs, node, cl_frame=None):
+        r = super().apply_contract(st, c, args, kwargs, node, cl_frame)
+        if not r:
+            from contracts import C11_ctx
+            if c.target.split("::")[0] in (C11_ctx.ZC, C11_ctx.ZU, C11_ctx.ENC):
+                raise ops.Unsupported(f"{self.loc(node)} contract of {c.target.split('::')[-1]} leaves no normal outcome at this call")
+        return r
+
     def mutated_refs(self, stmts, st):
         refs = super().mutated_refs(stmts, st)
         frozen = self._frozen_classes()
